@@ -85,13 +85,31 @@ def run_case(case):
         net.sim.advance(3 * MS)
         L = net.L
 
+        held = {}
+
         def do(node):
-            h = L.Header(dst, typ)
-            if case.get("stale_from") is not None:
-                h.from_node = case["stale_from"]  # a header object used before by another node / taken from a received frame
+            if "frame" in held:
+                frame = held["frame"]  # the frame object of the earlier write(s), handed to write() again as it is
+            else:
+                h = L.Header(dst, typ)
+                if case.get("stale_from") is not None:
+                    h.from_node = case["stale_from"]  # a header object used before by another node / taken from a received frame
+                frame = L.Frame(h, msg)
+            if case.get("again"):
+                held["frame"] = frame
             t0 = net.sim.now
-            r = node.write(L.Frame(h, msg))
+            r = node.write(frame)
             return r, t0, net.sim.now
+
+        for _ in range(case.get("again") or 0):
+            # history: the application has written this very frame object before (a retry after a result it did not like, or
+            # one header object used for message after message - the frame id is given at construction): every write is a
+            # transmission of its own and is acknowledged on its own.  Only the last one is judged, on a log of its own.
+            net.call(src, do, timeout_ms=20000)
+            net.settle(3000)
+            net.drain_queues()
+            del net.med.log[:]
+            res.label("same-frame-object-written-before")
 
         un = case.get("unread")
         if un:
@@ -269,6 +287,14 @@ def _enum(quick):
                 yield {"src": s, "dst": d, "type": typ, "msg": "c13f", "tx_timeout": 10, "route_timeout": 40, "fault": None, "nodes": _topology(s, d),
                        "stale_from": 0o3 if s != 0o3 else 0o4}
                 yield {"src": d, "dst": s, "type": typ, "msg": "5a" * 24, "tx_timeout": 10, "route_timeout": 40, "fault": None, "nodes": _topology(d, s)}
+        # the same frame object written once or twice before (same frame id each time)
+        for hops, (s, d) in ROUTES.items():
+            for again in (1, 2):
+                for typ in (65, 0):
+                    yield {"src": s, "dst": d, "type": typ, "msg": "c13b", "tx_timeout": 10, "route_timeout": 40, "fault": None, "nodes": _topology(s, d),
+                           "again": again}
+                    yield {"src": d, "dst": s, "type": typ, "msg": "c13b", "tx_timeout": 10, "route_timeout": 40, "fault": None, "nodes": _topology(d, s),
+                           "again": again}
         # every node listens to another level's multicasts (multicast_level raised or lowered): routing and NETWORK_ACKs as before
         for hops, (s, d) in ROUTES.items():
             for rev in (False, True):
@@ -379,6 +405,10 @@ def _strategy():
                 x["kind"] = "net"
                 unread = {"src": x["addr"], "count": draw(st.sampled_from([1, 3, 5, 6, 6, 7, 9]))}
         n = draw(st.integers(0, 24))
+        if fault is None and bg is None and unread is None and draw(st.integers(0, 2)) == 0:
+            return {"src": s, "dst": d, "type": typ, "msg": draw(st.binary(min_size=n, max_size=n)).hex(), "again": draw(st.integers(1, 3)),
+                    "tx_timeout": draw(st.sampled_from([5, 10, 25, 50])), "route_timeout": draw(st.sampled_from([20, 40, 75, 200])),
+                    "fault": None, "nodes": nodes}
         return {"src": s, "dst": d, "type": typ, "bg": bg, "unread": unread, "msg": draw(st.binary(min_size=n, max_size=n)).hex(),
                 "tx_timeout": draw(st.sampled_from([5, 10, 25, 50])), "route_timeout": draw(st.sampled_from([20, 40, 75, 200])),
                 "fault": fault, "nodes": nodes}
